@@ -320,6 +320,26 @@ def _roles(c):
     return r
 
 
+def _carried_locals(cut, n_ops, index, kw):
+    """locals after one real, reachable earlier iteration (finite densities, accepted with probability one)"""
+    key = (n_ops, index, tuple(sorted((k, repr(v)) for k, v in kw.items())))
+    cache = cut.__dict__.setdefault("_vt_carried", {})
+    if key not in cache:
+        LJ0, LJ1 = _t(-4.5), _t(-1.25)
+        hs0 = [_t(0.0) for _ in range(n_ops)]
+        u0 = torch.tensor([0.25], dtype=torch.float64)
+        mm, w, ops, mcmc, saves = _build(cut, LJ0, LJ1, hs0, u0, index, **kw)
+        R = _roles(cut)
+        st = R.state(mcmc, 2, types.SimpleNamespace(stop=False), LJ0)
+        try:
+            with _module_names(mm, torch=_loop_torch(u0, index, [], [])), contextlib.redirect_stdout(io.StringIO()):
+                tagv, loc = cut.body(st)
+        except Exception:
+            tagv, loc = "failed", {}
+        cache[key] = {k: v for k, v in loc.items() if k not in st} if tagv == "next" else {}
+    return dict(cache[key])
+
+
 def run_iteration(cut, LJ, LJp, hs, u, index, **kw):
     """execute the verbatim loop body once; returns the record the obligations talk about"""
     mm, w, ops, mcmc, saves = _build(cut, LJ, LJp, hs, u, index, **kw)
@@ -327,6 +347,11 @@ def run_iteration(cut, LJ, LJp, hs, u, index, **kw):
     seen_w, rand_calls = [], []
     R = _roles(cut)
     state = R.state(mcmc, 3, types.SimpleNamespace(stop=False), LJ)
+    # loop-carried locals the invariant says nothing about (whatever an EARLIER iteration left bound: a proposal density, an
+    # acceptance probability, ...) hold the values a reachable earlier iteration leaves behind - an accepted move with
+    # acceptance probability one, on a world of its own - never "unbound": a body that reads one of them sees a stale value
+    for k_, v_ in _carried_locals(cut, len(hs), index, kw).items():
+        state.setdefault(k_, v_)
     out = io.StringIO()
     with _module_names(mm, torch=_loop_torch(u, index, seen_w, rand_calls)), contextlib.redirect_stdout(out):
         tagv, loc = cut.body(state)
@@ -693,20 +718,23 @@ def _confirm_on_grid(cut=None, want=None):
 # replays on the REAL classes: the whole real MCMC.run (one iteration), real Parameter, real operator subclass
 # ---------------------------------------------------------------------------------------------------
 def real_one_iteration(LJ, LJp, h, u, every=0):
-    """one iteration of the whole real MCMC.run: real Parameter, a real SlidingWindowOperator subclass whose `_step`
-    moves x from 0.5 to 10.5 and returns h, target pi(0.5)=LJ, pi(10.5)=LJ', torch.rand -> u."""
+    """the whole real MCMC.run for two iterations: real Parameter, a real SlidingWindowOperator subclass whose `_step` moves x by +10
+    and returns 0 the first time and h the second time; target pi(-9.5)=LJ-5, pi(0.5)=LJ, pi(10.5)=LJ'; torch.rand -> u.
+    Iteration 1 (-9.5 -> 0.5) is accepted with probability one: it only puts the chain - and every loop-carried local of run() - in
+    the state a running chain has; iteration 2 (0.5 -> 10.5) is the one the record describes."""
     mm = _mm()
     from torchtree.core.parameter import Parameter
     from torchtree.inference.mcmc.operator import SlidingWindowOperator
 
-    p = Parameter("x", torch.tensor([0.5], dtype=torch.float64))
-    tuned, rows, jcalls = [], [], []
+    p = Parameter("x", torch.tensor([-9.5], dtype=torch.float64))
+    tuned, rows, jcalls, steps = [], [], [], []
 
     class FixedMove(SlidingWindowOperator):
         def _step(self):
             q = self.parameters[0]
             q.tensor = q.tensor + 10.0
-            return _t(h)
+            steps.append(1)
+            return _t(h if len(steps) == 2 else 0.0)
 
         def tune(self, acceptance_prob, sample, accepted):
             tuned.append((float(acceptance_prob), sample, accepted))
@@ -714,7 +742,7 @@ def real_one_iteration(LJ, LJp, h, u, every=0):
     def joint():
         x = float(p.tensor[0])
         jcalls.append(x)
-        return _t(LJ if x == 0.5 else LJp)
+        return _t(LJ - 5.0 if x == -9.5 else LJ if x == 0.5 else LJp)
 
     class Rows:
         def initialize(self):
@@ -727,11 +755,12 @@ def real_one_iteration(LJ, LJp, h, u, every=0):
             pass
 
     op = FixedMove("op", [p], 1.0, 0.24, 0.5)
-    mcmc = mm.MCMC("mcmc", joint, [op], 1, loggers=[Rows()], checkpoint=None, every=every)
+    mcmc = mm.MCMC("mcmc", joint, [op], 2, loggers=[Rows()], checkpoint=None, every=every)
     rnd = _NS(torch, rand=lambda *a, **k: torch.tensor([float(u)], dtype=torch.float64))
     with _module_names(mm, torch=rnd), contextlib.redirect_stdout(io.StringIO()):
         mcmc.run()
-    return {"x": float(p.tensor[0]), "accepts": op._accept, "rejects": op._reject, "tuned": tuned, "rows": rows}
+    warm_ok = len(tuned) >= 1 and tuned[0][2] is True
+    return {"x": float(p.tensor[0]), "accepts": op._accept - 1, "rejects": op._reject, "tuned": tuned[1:], "rows": rows, "warm_ok": warm_ok}
 
 
 def replay_accept(args):
@@ -741,19 +770,21 @@ def replay_accept(args):
     out = real_one_iteration(LJ, LJp, h, u)
     acc_c = out["accepts"] == 1
     bad = []
+    if not out["warm_ok"]:
+        bad.append("the preparatory move (density +5, Hastings 0) was not accepted")
     if acc_c is not acc_s:
         bad.append("real MCMC.run %s the move, the statement requires %s" % ("ACCEPTED" if acc_c else "rejected", "accept" if acc_s else "reject"))
     if out["accepts"] + out["rejects"] != 1:
         bad.append("accept/reject bookkeeping: %d/%d" % (out["accepts"], out["rejects"]))
     if out["x"] != (10.5 if acc_c else 0.5):
         bad.append("parameter is %r after a %s move" % (out["x"], "accepted" if acc_c else "rejected"))
-    want_row = (1, 10.5, LJp) if acc_c else (1, 0.5, LJ)
+    want_row = (2, 10.5, LJp) if acc_c else (2, 0.5, LJ)
     row = out["rows"][-1] if out["rows"] else None
-    if row is None or row[0] != 1 or row[1] != want_row[1] or not (row[2] == want_row[2] or (row[2] != row[2] and want_row[2] != want_row[2])):
+    if row is None or row[0] != 2 or row[1] != want_row[1] or not (row[2] == want_row[2] or (row[2] != row[2] and want_row[2] != want_row[2])):
         bad.append("logged row %r, expected %r" % (row, want_row))
     if len(out["tuned"]) != 1 or not (abs(out["tuned"][0][0] - p_s) <= 1e-15 * max(1.0, p_s)):
         bad.append("tune received %r, expected acceptance probability %r" % (out["tuned"], p_s))
-    msg = "LJ=%r LJ'=%r h=%r u=%r: %s" % (LJ, LJp, h, u, "; ".join(bad) if bad else "agrees with the statement")
+    msg = "LJ=%r LJ'=%r h=%r u=%r (second iteration of a running chain): %s" % (LJ, LJp, h, u, "; ".join(bad) if bad else "agrees with the statement")
     return (not bad), msg
 
 
